@@ -73,13 +73,24 @@ static std::string apply(const KeySpec &k, jwt_alg_t alg, int pay, std::string t
   case M_SIG_OTHER_ALG: { if (!tp.ok) return t; std::vector<jwt_alg_t> as; for (auto &x : ALGS) if (x.kind == k.kind && x.alg != alg && (k.kind != K_EC || x.ecbits == k.bits)) as.push_back(x.alg); if (as.empty()) return t;
       std::string s = ref_sign(k, as[ua % as.size()], tp.signing_input); return s.empty() ? t : reb(tp.h, tp.p, b64u_enc(s)); }
   case M_EC_SPECIAL: { if (!tp.ok || !ai || ai->kind != K_EC) return t; size_t w = (k.bits + 7) / 8; if (tp.sdec.size() != 2 * w) return t; std::string r = tp.sdec.substr(0, w), s = tp.sdec.substr(w), n = order_bytes(k), z(w, '\0');
-      switch (ua % 9) {
+      switch (ua % 10) {
       case 0: return reb(tp.h, tp.p, b64u_enc(z + s)); case 1: return reb(tp.h, tp.p, b64u_enc(r + z)); case 2: return reb(tp.h, tp.p, b64u_enc(n + s)); case 3: return reb(tp.h, tp.p, b64u_enc(r + n));
       case 4: { BIGNUM *bn = BN_bin2bn((const unsigned char *)n.data(), (int)w, nullptr), *bs = BN_bin2bn((const unsigned char *)s.data(), (int)w, nullptr); BN_sub(bs, bn, bs); std::string ns = bn_bytes(bs, (int)w); BN_free(bn); BN_free(bs); return reb(tp.h, tp.p, b64u_enc(r + ns)); }  // (r, n-s): valid by malleability
       case 5: { size_t nw = w == 32 ? 48 : w == 48 ? 66 : 72; return reb(tp.h, tp.p, b64u_enc(std::string(nw - w, '\0') + r + std::string(nw - w, '\0') + s)); }  // zero-padded to next width
       case 6: return reb(tp.h, tp.p, b64u_enc(strip0(r) + strip0(s)));
       case 7: return reb(tp.h, tp.p, b64u_enc(std::string(1, '\0') + r + std::string(1, '\0') + s));
       case 8: { size_t nw = w == 66 ? 48 : w == 48 ? 32 : 24; return reb(tp.h, tp.p, b64u_enc(r.substr(w - nw) + s.substr(w - nw))); }
+      case 9: {   // r = -e/d mod n, s = 1: the verifier's point e/s*G + r/s*Q is the point at infinity - not a valid signature; a verify routine
+                  // reports this as an ERROR (a third outcome beside valid / invalid), which must not be taken for success
+        BIGNUM *d = nullptr; if (!EVP_PKEY_get_bn_param(k.pkey, OSSL_PKEY_PARAM_PRIV_KEY, &d) || !d) return t;
+        const EVP_MD *md = ai->alg == JWT_ALG_ES384 ? EVP_sha384() : ai->alg == JWT_ALG_ES512 ? EVP_sha512() : EVP_sha256(); unsigned char hh[64]; unsigned hl = 0;
+        EVP_Digest(tp.signing_input.data(), tp.signing_input.size(), hh, &hl, md, nullptr);
+        BN_CTX *cx = BN_CTX_new(); BIGNUM *bn = BN_bin2bn((const unsigned char *)n.data(), (int)w, nullptr), *e = BN_bin2bn(hh, (int)hl, nullptr), *br = BN_new(), *di = BN_new();
+        int nbits = BN_num_bits(bn); if ((int)hl * 8 > nbits) BN_rshift(e, e, (int)hl * 8 - nbits);
+        BN_mod(e, e, bn, cx); BN_mod_sub(e, bn, e, bn, cx); BN_mod_inverse(di, d, bn, cx); BN_mod_mul(br, e, di, bn, cx);
+        std::string rr = bn_bytes(br, (int)w), one(w, '\0'); one[w - 1] = 1; bool zero = BN_is_zero(br);
+        BN_free(d); BN_free(bn); BN_free(e); BN_free(br); BN_free(di); BN_CTX_free(cx);
+        return zero ? t : reb(tp.h, tp.p, b64u_enc(rr + one)); }
       } return t; }
   case M_RESIGN_RANGE: {   // the real key signs something OTHER than "first segment . second segment": text with further dots, with '=' inside, or a prefix
       if (!tp.ok) return t; std::string X; for (unsigned i = 0; i < 4 + ub % 9; i++) X += B64U[(uc + i * 11) % 64]; std::string over, text;
